@@ -133,3 +133,33 @@ def rule_single_use_iterators(ctx, rule_id, module_prefixes):
                       line=(bad[0].lineno if bad else a.lineno), function=fi.qualname, expected="%s = list(...)" % name,
                       found=short(a, 120))
     return n
+
+
+def rule_isdigit_int(ctx, rule_id, module_prefixes):
+    """`if s.isdigit(): int(s)`: str.isdigit() is true for characters int() refuses (superscripts '²', circled digits):
+    ValueError for such a key.  str.isdecimal() is the test that implies int() succeeds."""
+    run = ctx.run
+    prog = ctx.prog
+    n = 0
+    for fi in sorted(prog.functions.values(), key=lambda f: f.id):
+        if not fi.module.name.startswith(tuple(module_prefixes)) or fi.module.relpath.startswith("stix2/test"):
+            continue
+        for x in body_walk(fi.node):
+            if not isinstance(x, (ast.If, ast.IfExp)):
+                continue
+            for t in ast.walk(x.test):
+                if isinstance(t, ast.Call) and isinstance(t.func, ast.Attribute) and t.func.attr in ("isdigit", "isnumeric") and not t.args:
+                    recv = norm(t.func.value)
+                    body = x.body if isinstance(x.body, list) else [x.body]
+                    conv = [c for b_ in body for c in ast.walk(b_) if isinstance(c, ast.Call) and call_simple_name(c) == "int"
+                            and c.args and norm(c.args[0]) == recv]
+                    if conv:
+                        n += 1
+                        run.violation(rule_id, key(fi.module.relpath, fi.qualname, "isdigit-then-int:%s" % recv),
+                                      "`%s.%s()` guards `int(%s)`: the test is true for characters int() refuses (e.g. '²'), so such "
+                                      "a key raises ValueError" % (recv, t.func.attr, recv), file=fi.module.relpath, line=x.lineno,
+                                      function=fi.qualname, expected="%s.isdecimal()" % recv, found=short(x.test))
+                if isinstance(t, ast.Call) and isinstance(t.func, ast.Attribute) and t.func.attr == "isdecimal":
+                    n += 1
+                    run.ok(rule_id, key(fi.module.relpath, fi.qualname, "isdecimal:%s" % norm(t.func.value)))
+    return n
